@@ -85,7 +85,7 @@ def earlier_connections():
     out = []
     for i, b in enumerate(bodies):
         out.append(dict(cfg=simnet.default_cfg(), steps=[("data", 10, b), ("eof", 10)], app={2: [("text", b"x", True)]} if i % 2 else {},
-                        keys=[b"\x09\x09\x09\x09"] * 4, key16=b"\x07" * 16))
+                        keys=[b"\x09\x09\x09\x09"] * 4, key16=scen.KEY16))
     return out
 
 
@@ -93,17 +93,19 @@ _EARLIER = None
 
 
 def with_history(p):
-    """deterministically (by the scenario's own fingerprint) give one scenario in eight an earlier connection in the process"""
+    """deterministically (by the scenario's own fingerprint) give one scenario in eight an earlier connection in the process,
+    and another one in eight an earlier connection on the very WebSocket object it uses"""
     global _EARLIER
     if "previously" in p or "_ws_object" in p or "steps" not in p or "cfg" not in p:
         return p
     h = int(fingerprint(p)[:8], 16)
-    if h % 8:
+    if h % 8 > 1 or (h % 8 == 1 and ("headers" in p or "previously_same" in p)):
         return p
     if _EARLIER is None:
         _EARLIER = earlier_connections()
     q = dict(p)
-    q["previously"] = [_EARLIER[(h // 8) % len(_EARLIER)]]
+    # residue 0: another object's connection earlier in the process; residue 1: an earlier connection of the SAME object
+    q["previously" if h % 8 == 0 else "previously_same"] = [_EARLIER[(h // 8) % len(_EARLIER)]]
     return q
 
 
@@ -116,6 +118,7 @@ def run_family(rep, model, name, scenarios, oracle, project=None, rule="", known
     project = project or (lambda t: t)
     plain = [with_history(strip_meta(sc)) for sc in scenarios]
     rep.count("earlier_connection_in_process", name, sum(1 for p in plain if "previously" in p))
+    rep.count("earlier_connection_of_the_same_object", name, sum(1 for p in plain if "previously_same" in p))
     impl = run_impl_many(plain, impl_opts)
     reqs = [simnet.to_sx(sc) for sc in plain] if model is not None else []
     mod = model.run(reqs) if model is not None else [None] * len(plain)
